@@ -103,7 +103,8 @@ static int h_item(UChar *name, cif_value_tp *value, void *ctx) {
 }
 
 static void exercise(cif_tp *cif, int deep) {
-    static const UChar code[] = { 'v', 'p', '_', 'f', 'r', 'e', 's', 'h', '_', 'x', 0 };
+    UChar code[] = { 'v', 'p', '_', 'f', 'r', 'e', 's', 'h', '_', 'x', 0 };
+    int attempt;
     static const UChar name[] = { '_', 'f', 'r', 'e', 's', 'h', 0 };
     cif_handler_tp handler = { h_cif, h_cif, h_cont, h_cont, h_cont, h_cont, h_loop, h_loop, h_pkt, h_pkt, h_item };
     cif_block_tp *blk = NULL;
@@ -121,7 +122,12 @@ static void exercise(cif_tp *cif, int deep) {
             if (!is_defined_code(rc)) violation("parse:unusable:write", "cif_write returned an undefined code", rc, 0);
         }
     }
-    rc = cif_create_block(cif, code, &blk);
+    /* (a coverage-guided input can come to hold a block of this very code: that is the input's right) */
+    for (attempt = 0; attempt < 26; attempt += 1) {
+        code[9] = (UChar) ('x' - attempt);
+        rc = cif_create_block(cif, code, &blk);
+        if (rc != CIF_DUP_BLOCKCODE) break;
+    }
     if (rc != CIF_OK) violation("parse:unusable:modify", "cif_create_block after the parse returned", rc, 0);
     if (cif_value_create(CIF_UNK_KIND, &v) != CIF_OK) return;
     if (cif_value_autoinit_numb(v, 1.25, 0.03, 19) != CIF_OK) violation("parse:unusable:modify", "autoinit_numb", 0, 0);
